@@ -95,12 +95,12 @@ def regenerate_gen():
     import py_to_coq
 
     st = py_to_coq.regenerate(REPO, os.path.join(THEORIES, "Gen"))
-    try:
-        import decisions
-
-        st.update({k: (None if v is None else "redundant-tie: " + str(v)) for k, v in decisions.regenerate(REPO, os.path.join(THEORIES, "Gen")).items()})
-    except Exception as e:  # noqa: BLE001 -- the translated decision functions are a REDUNDANT tie (see gen_tie below)
-        st["Decisions.v"] = f"redundant-tie: translator failed: {type(e).__name__}: {e}"
+    for modname, fname in (("decisions", "Decisions.v"), ("loops", "Loops.v")):
+        try:
+            mod = __import__(modname)
+            st.update({k: (None if v is None else "redundant-tie: " + str(v)) for k, v in mod.regenerate(REPO, os.path.join(THEORIES, "Gen")).items()})
+        except Exception as e:  # noqa: BLE001 -- the translated decision / loop functions are a REDUNDANT tie (see gen_tie below)
+            st[fname] = f"redundant-tie: translator failed: {type(e).__name__}: {e}"
     return st
 
 
@@ -108,16 +108,24 @@ def gen_tie(pid, theorems):
     """Redundant tie (DESIGN.md section 2): the decision functions translated from the source on this run (Gen/Decisions.v) are proved EQUAL,
     for all inputs, to the hand-model definitions (Props/GenTie.v).  The theorems a property names are compiled on their own (one file per
     property under build/gentie) so that one broken equation does not hide the others.  Returns {theorem: "checked" | "lost: why"}."""
-    src = open(os.path.join(THEORIES, "Props", "GenTie.v")).read()
-    m0 = re.search(r"^\(\* ---- ", src, flags=re.M)
-    head = src[:m0.start()] if m0 else src[:src.index("Theorem")]
+    files = {}
+    for fn, deps in (("GenTie.v", ["Gen/Decisions.vo", "Proofs/GenTieLemmas.vo"]), ("GenTieLoops.v", ["Gen/Loops.vo", "Proofs/GenTieLoopsLemmas.vo"])):
+        src_f = open(os.path.join(THEORIES, "Props", fn)).read()
+        m0 = re.search(r"^\(\* ---- ", src_f, flags=re.M)
+        files[fn] = (src_f, src_f[:m0.start()] if m0 else src_f[:src_f.index("Theorem")], deps)
     out = {}
-    ok, log = make(["Gen/Decisions.vo", "Proofs/GenTieLemmas.vo", "Model/AP.vo", "Model/Matching.vo", "Model/Filter.vo", "Model/Clear.vo", "Model/PassFail.vo"])
+    made = {}
+    make(["Model/AP.vo", "Model/Matching.vo", "Model/Filter.vo", "Model/Clear.vo", "Model/PassFail.vo"])
     d = os.path.join(BUILD, "gentie")
     os.makedirs(d, exist_ok=True)
     for t in theorems:
+        fn = next((f for f, (sf, _, _) in files.items() if re.search(r"^Theorem " + re.escape(t) + r"\b", sf, flags=re.M)), "GenTie.v")
+        src, head, deps = files[fn]
+        if fn not in made:
+            made[fn] = make(deps)
+        ok, log = made[fn]
         if not ok:
-            out[t] = "lost: Gen/Decisions.v or its lemmas do not compile: " + log[-300:].replace("\n", " ")
+            out[t] = f"lost: {deps[0][:-1]} or its lemmas do not compile: " + log[-300:].replace("\n", " ")
             continue
         m = re.search(r"^Theorem " + re.escape(t) + r"\b.*?^Print Assumptions " + re.escape(t) + r"\.", src, flags=re.M | re.S)
         if not m:
@@ -533,9 +541,9 @@ def run_check(prop, tier, seed):
     if getattr(prop, "gen_tie_theorems", None):
         with BuildLock():
             gt = gen_tie(pid, prop.gen_tie_theorems)
-        cov["redundant_tie"] = {"what": "Gen/Decisions.v (translated from the source on this run by translator/decisions.py) = hand model, for all inputs "
-                                        "(Props/GenTie.v; each theorem closed under the global context)",
-                                "translator": gen.get("Decisions.v") or "ok", "theorems": gt}
+        cov["redundant_tie"] = {"what": "Gen/Decisions.v, Gen/Loops.v (translated from the source on this run by translator/decisions.py, loops.py) = hand model, for all "
+                                        "inputs (Props/GenTie.v, Props/GenTieLoops.v; each theorem closed under the global context)",
+                                "translator": {k: (gen.get(k) or "ok") for k in ("Decisions.v", "Loops.v")}, "theorems": gt}
         lost_ties = {k: v for k, v in gt.items() if v != "checked"}
     cov["theorems"] = thms
     cov["nonvacuity_examples"] = examples
